@@ -489,8 +489,13 @@ def refactor_overlay(root: str, d: str):
 def _run_refactor(args):
     prop, d, root = args
     from .check import Ctx, decide
-    name = "refactoring:" + os.path.basename(d.rstrip("/"))
-    ov = refactor_overlay(root, d)
+    if d.startswith("renamed:"):
+        from .renamer import renamed_overlay
+        name = d
+        ov = renamed_overlay(root, d.split(":", 1)[1])
+    else:
+        name = "refactoring:" + os.path.basename(d.rstrip("/"))
+        ov = refactor_overlay(root, d)
     if ov is None:
         return {"variant": name, "status": "skipped", "why": "the files this refactoring replaces have changed"}
     repo = Repo(root, ov)
@@ -538,6 +543,8 @@ def run_for_property(prop: str) -> dict:
     # (a rule may be unable to decide a heavily rewritten module; that is counted, not a disagreement)
     import glob
     rdirs = sorted(glob.glob(os.path.join(REFACTOR_DIR, "*", "")))
+    # ... and a copy of the package with every local variable and private function / constant renamed consistently
+    rdirs = ["renamed:both"] + rdirs
     n_ref = n_undecided = 0
     if rdirs:
         with ProcessPoolExecutor(max_workers=min(16, len(rdirs))) as ex:
@@ -550,6 +557,8 @@ def run_for_property(prop: str) -> dict:
             n_ref += 1
             if r["fired"]:
                 disagreements.append(f"{r['variant']}: behaviour-preserving refactoring but {r['fired']} reported ({r['constructs'][:2]})")
+            elif r["errors"] and r["variant"].startswith("renamed:"):
+                disagreements.append(f"{r['variant']}: a consistent renaming leaves {r['errors'][:2]} undecided (a rule reads names)")
             elif r["errors"]:
                 n_undecided += 1
         out += rout
